@@ -326,6 +326,7 @@ def run_cases(binary, cases, wd):
 
     def run_limit(limit):
         resume = ""
+        hangs = 0
         op = os.path.join(wd, "traces-%d.ndjson" % limit)
         open(op, "w").close()
         for attempt in range(60):
@@ -342,6 +343,12 @@ def run_cases(binary, cases, wd):
                 if last is None:
                     raise Inconclusive("harness stalled before its first case:\n" + p.stdout[-2000:])
                 resume = json.loads(last)["id"].split(".")[0]
+                if p.returncode == 5:
+                    hangs += 1
+                    if hangs >= 3:
+                        # three builds that never finished (each is a recorded execution the
+                        # monitor judges): the remaining cases of this limit add nothing
+                        return op
                 continue
             raise Inconclusive("runner harness failed (exit %d):\n%s" % (p.returncode, p.stdout[-3000:]))
         raise Inconclusive("runner harness kept stalling")
